@@ -417,6 +417,7 @@ def c13_rf16(run):
     rf_proto.rf136(run)
     rf_proto.rf138(run)
     rf_proto.rf150(run)
+    rf_proto.rf157(run)
 
 
 def c14_rf16f(run):
